@@ -101,6 +101,8 @@ impl<T> MailboxProducer<T> {
   /// This operation is **non-blocking**. If the mailbox buffer is full,
   /// the message is dropped, and the function returns immediately.
   pub(crate) fn deliver(&self, value: T) {
+    #[cfg(all(not(loom), excsn_fibre_verif))]
+    crate::verif::point(crate::verif::Kind::Custom);
     let mut guard = self.shared.internal.lock();
 
     // If the buffer is full, drop the message and increment the counter.
@@ -116,6 +118,8 @@ impl<T> MailboxProducer<T> {
 
   /// Signals to the consumer that the channel is disconnected.
   pub(crate) fn disconnect(&self) {
+    #[cfg(all(not(loom), excsn_fibre_verif))]
+    crate::verif::point(crate::verif::Kind::Custom);
     let mut guard = self.shared.internal.lock();
     if !guard.is_disconnected {
       guard.is_disconnected = true;
@@ -138,6 +142,8 @@ impl<T> Drop for MailboxProducer<T> {
 impl<T> MailboxConsumer<T> {
   /// Attempts to receive a message without blocking.
   pub(crate) fn try_recv(&self) -> Result<T, TryRecvError> {
+    #[cfg(all(not(loom), excsn_fibre_verif))]
+    crate::verif::point(crate::verif::Kind::Custom);
     let mut guard = self.shared.internal.lock();
 
     if let Some(value) = guard.buffer.pop_front() {
@@ -152,6 +158,8 @@ impl<T> MailboxConsumer<T> {
   /// Receives a message, blocking the current thread if the mailbox is empty.
   pub(crate) fn recv_sync(&self) -> Result<T, RecvError> {
     loop {
+      #[cfg(all(not(loom), excsn_fibre_verif))]
+      crate::verif::point(crate::verif::Kind::Custom);
       let mut guard = self.shared.internal.lock();
       match guard.buffer.pop_front() {
         Some(value) => return Ok(value),
@@ -162,6 +170,8 @@ impl<T> MailboxConsumer<T> {
           // Park the thread and wait.
           guard.consumer_waiter = Some(Waiter::Sync(thread::current()));
           drop(guard); // Unlock before parking.
+          #[cfg(all(not(loom), excsn_fibre_verif))]
+          crate::verif::point(crate::verif::Kind::Custom);
           thread::park();
         }
       }
@@ -172,6 +182,8 @@ impl<T> MailboxConsumer<T> {
   pub(crate) fn recv_timeout_sync(&self, timeout: Duration) -> Result<T, RecvErrorTimeout> {
     let start_time = Instant::now();
     loop {
+      #[cfg(all(not(loom), excsn_fibre_verif))]
+      crate::verif::point(crate::verif::Kind::Custom);
       let mut guard = self.shared.internal.lock();
       match guard.buffer.pop_front() {
         Some(value) => return Ok(value),
@@ -189,6 +201,8 @@ impl<T> MailboxConsumer<T> {
           // Park the thread and wait.
           guard.consumer_waiter = Some(Waiter::Sync(thread::current()));
           drop(guard); // Unlock before parking.
+          #[cfg(all(not(loom), excsn_fibre_verif))]
+          crate::verif::point(crate::verif::Kind::Custom);
           thread::park_timeout(remaining_timeout);
         }
       }
